@@ -419,6 +419,9 @@ def r11(ctx):
         if a.args and init is not None:
             for p_, x in zip(init.own_params[1:], a.args):
                 got.setdefault(p_, x)
+        elif a.args:
+            for p_, x in zip(list(cls.fields), a.args):      # a dataclass: positional arguments bind the fields in declaration order
+                got.setdefault(p_, x)
         wrong = [n for n in names if got.get(n) != Sym(n)]
         ctx.check(not wrong and len(names) >= 8, fi, f"every solver setting is the entry point's parameter of the same name ({len(names)} fields)",
                   role="entry:plumbing", expected=", ".join(f"{n}={n}" for n in names), found=", ".join(f"{n}={got.get(n)}" for n in wrong)[:160])
